@@ -354,12 +354,113 @@ def r5(db, rep):
                "prototype-chain slots cached for this shape stay valid", loc=f.span)
 
 
+SEARCHES = {"position", "rposition", "binary_search", "binary_search_by", "binary_search_by_key"}
+SHRINKERS = {"retain", "retain_mut", "remove", "swap_remove", "truncate", "clear", "drain", "pop", "dedup", "dedup_by",
+             "dedup_by_key", "insert", "swap", "sort", "sort_by", "sort_by_key", "sort_unstable", "sort_unstable_by",
+             "sort_unstable_by_key", "reverse", "rotate_left", "rotate_right", "split_off", "take"}
+VIA = ("deref", "deref_mut", "iter", "iter_mut", "as_slice", "as_mut_slice", "borrow", "borrow_mut", "as_ref", "as_mut")
+
+
+def _indexes_with(g, tainted):
+    """blocks of g where a place is indexed by a tainted local (`x[i]` on a slice is a projection, not a call)"""
+    out = []
+    T = set(tainted)
+    for l in list(tainted):
+        T |= taint(g, l)[0]
+    for b in g.reachable():
+        for st in g.blocks[b]["s"]:
+            r = st["r"]
+            places = [st["p"]]
+            if r.get("k") in ("use", "cast", "un") and r["o"][0] in ("c", "m"):
+                places.append(r["o"][1])
+            elif r.get("k") in ("ref", "discr", "rawptr", "len"):
+                places.append(r["p"])
+            for pl in places:
+                if any(isinstance(e, str) and e.startswith("i:") and int(e[2:]) in T for e in pl[1:]):
+                    out.append(b)
+        t = g.blocks[b]["t"]
+        if t["t"] == "call" and (t.get("rf") or callee(t) or "").split("::")[-1] in ("index", "index_mut", "get_unchecked",
+                                                                                      "get_unchecked_mut") \
+                and len(t["args"]) >= 2 and op_local(t["args"][1]) in T:
+            out.append(b)
+    return out
+
+
+def r6(db, rep):
+    from facts import provenance
+    rep.rule("R6", "a position found in the inline cache's entry list is not used as an index after the list was shrunk or "
+                   "reordered: between a search (position / binary_search) on a container and an indexing of the same container "
+                   "with its result there is no retain / remove / swap_remove / truncate / sort … of that container")
+    n = 0
+    scanned = 0
+    for f in db.fns.values():
+        if not f.id.startswith(("boa_engine::vm::inline_cache", "boa_engine::object::shape", "boa_engine::object::property_map")):
+            continue
+        if "{closure" in f.id or "::tests" in f.id:
+            continue
+        scanned += 1
+        if not any(f.mentions(m) for m in SEARCHES):
+            continue
+        name = cname(f.id)
+        k = 0
+        for pb, pt in f.calls():
+            m = (pt.get("rf") or callee(pt) or "").split("::")[-1]
+            if m not in SEARCHES or not pt["args"] or not pt.get("dest") or "to" not in pt:
+                continue
+            recv = op_local(pt["args"][0])
+            if recv is None:
+                continue
+            base = provenance(f, recv, extra=VIA)
+            n += 1
+            res = pt["dest"][0]
+            T = taint(f, res)[0]
+            after_p = f.reach_from([pt["to"]])
+            bad = None
+            for mb, mt in f.calls():
+                if mb not in after_p or mb == pb or (mt.get("rf") or callee(mt) or "").split("::")[-1] not in SHRINKERS:
+                    continue
+                if not mt["args"] or op_local(mt["args"][0]) is None:
+                    continue
+                if not (provenance(f, op_local(mt["args"][0]), extra=VIA) & base - {recv}):
+                    continue
+                after_m = f.reach_from(f.succs(mb))
+                # (a) direct indexing with the stale result
+                for ub in _indexes_with(f, {res}):
+                    if ub in after_m:
+                        bad = (mb, ub, "indexes")
+                # (b) the result handed to a closure that captured the container and indexes it with its parameter
+                for ub, ut in f.calls():
+                    if ub not in after_m or not arg_hits(ut, T):
+                        continue
+                    for a in ut["args"]:
+                        al = op_local(a)
+                        for r in (roots(f, al) if al is not None else []):
+                            if r[0] == "rv" and r[2].get("k") == "agg" and r[2].get("ak") == "closure":
+                                caps = [op_local(o) for o in r[2]["ops"] if op_local(o) is not None]
+                                if any(provenance(f, c, extra=VIA) & base - {recv} for c in caps):
+                                    g = db.fns.get(r[2]["def"])
+                                    if g is not None and _indexes_with(g, set(range(2, g.rec["argc"] + 1))):
+                                        bad = (mb, ub, "passes it to a closure that indexes")
+            rep.ob("R6", f"{name}:{m}:{k}:index-still-valid", bad is None,
+                   f"{name} searches a container ({f.loc(pb)}), then calls "
+                   f"{cn(f.blocks[bad[0]]['t']) if bad else ''} on it ({f.loc(bad[0]) if bad else ''}) and afterwards "
+                   f"{bad[2] if bad else ''} the container with the position found before ({f.loc(bad[1]) if bad else ''}): after a "
+                   f"dead entry in front of the hit was swept, the index names another entry (the slot cached for a different "
+                   f"shape) or is out of bounds", loc=f.loc(pb))
+            k += 1
+    rep.analysed["R6.searches examined"] = n
+    # no search exists in these modules today (the cache walks its entries with a re-validated counter); the floor is on
+    # the functions scanned, the positive example is selftest/c06_r6_stale_index.patch
+    rep.floor("R6", "functions of the inline cache / shape / property map scanned for searches", scanned, 150)
+
+
 def run(db, rep, tier):
     r1(db, rep)
     r2(db, rep)
     r3(db, rep)
     r4(db, rep)
     r5(db, rep)
+    r6(db, rep)
     rep.assumptions += [
         "Shape values are immutable descriptions of a layout (shape transitions create new shapes; checked for the "
         "property map's own field only)",
